@@ -87,10 +87,17 @@ def sweep(ctx, n_trees, n_ops):
                     rot = R.random(rng=nps) if (scalar_only or rng.random() < 0.5) else R.random(rng.choice([1, 2, 3]), rng=nps)
                 a = rng.random()
                 anchor = None if a < 0.4 else (0 if a < 0.5 else (nps.uniform(-2, 2, 3) if (a < 0.8 or scalar_only) else nps.uniform(-2, 2, (rng.choice([1, 2, 3]), 3))))
+                anchor_arg = anchor
+                if rng.random() < 0.2 and (N == 1 or not scalar_only):
+                    # the anchor handed over is the LIVE position array of a member of the rotated tree (or of the collection
+                    # itself), as in `col.rotate(rot, anchor=col.children[0].position)`; it names the same points as a copy of it
+                    anchor_arg = rng.choice(sub).position
+                    anchor = np.array(anchor_arg, dtype=float)
+                    kinds["live-anchor"] = kinds.get("live-anchor", 0) + 1
                 if kind == "angax":
-                    target.rotate_from_angax(ang, ax, anchor=anchor, start="auto" if start is None else start)
+                    target.rotate_from_angax(ang, ax, anchor=anchor_arg, start="auto" if start is None else start)
                 else:
-                    target.rotate(rot, anchor=anchor, start="auto" if start is None else start)
+                    target.rotate(rot, anchor=anchor_arg, start="auto" if start is None else start)
                 rsc = rot.as_quat().ndim == 1
                 asc = anchor is None or np.ndim(anchor) <= 1
                 L = max(0 if rsc else len(rot.as_quat()), 0 if asc else len(anchor))
